@@ -108,12 +108,30 @@ func checkStoredCountRule(p *core.Program, r *core.Report, c *wlCtor, rule strin
 	}
 	pos := p.InstrPos(phi)
 	ri, okR := core.AsRange(loop)
+	if !okR {
+		// counted spelling over a slice: for i := 0; i < len(S); i++
+		if cnt, isC := core.AsCounted(loop); isC && cnt.Step == 1 && cnt.Op == token.LSS {
+			if z, isZ := core.ConstInt(cnt.Init); isZ && z == 0 {
+				if x, isLen := core.LenOf(cnt.Bound); isLen {
+					ri, okR = &core.RangeInfo{Loop: loop, Kind: "slice", X: x, Index: cnt.Phi}, true
+				}
+			}
+		}
+	}
 	if !okR || ri.Kind != "map" {
-		// a range over the final words slice is equally fine
+		// a sweep over the final words slice is equally fine: it must be the slice stored as the kept words
+		okSlice := false
 		if okR && ri.Kind == "slice" {
+			for _, v := range c.fields {
+				if v != nil && core.StripType(v) == core.StripType(ri.X) {
+					okSlice = true
+				}
+			}
+		}
+		if okSlice {
 			r.Pass(rule, name, "count accumulated over the kept slice", pos, "")
 		} else {
-			r.Fail(rule, name, "count accumulated over the final key set", pos, "accumulating loop is not a range over the dedupe map / kept slice")
+			r.Fail(rule, name, "count accumulated over the final key set", pos, "accumulating loop is not a sweep of the dedupe map / kept slice")
 			return
 		}
 	}
@@ -134,8 +152,27 @@ func checkStoredCountRule(p *core.Program, r *core.Report, c *wlCtor, rule strin
 		r.Check(late == "", rule, name, "count is taken over the final key set (no mutation of the map reachable from the counting loop)", pos,
 			"the map is still being modified ("+late+"): whether an entry is counted depends on iteration order")
 	}
-	// increments: phi edges inside the loop are phi or phi+1
+	// increments: phi edges inside the loop are phi or phi+1 (possibly merged by an inner phi)
 	okInc := true
+	var incs []ssa.Value
+	seenInc := map[ssa.Value]bool{}
+	var flatten func(v ssa.Value, d int)
+	flatten = func(v ssa.Value, d int) {
+		if d > 6 || seenInc[v] {
+			return
+		}
+		seenInc[v] = true
+		if v == ssa.Value(phi) {
+			return
+		}
+		if inner, isPhi := v.(*ssa.Phi); isPhi && loop.Blocks[inner.Block()] {
+			for _, e := range inner.Edges {
+				flatten(e, d+1)
+			}
+			return
+		}
+		incs = append(incs, v)
+	}
 	for i, e := range phi.Edges {
 		if !loop.Blocks[phi.Block().Preds[i]] {
 			if z, isC := core.ConstInt(e); !isC || z != 0 {
@@ -143,9 +180,9 @@ func checkStoredCountRule(p *core.Program, r *core.Report, c *wlCtor, rule strin
 			}
 			continue
 		}
-		if e == ssa.Value(phi) {
-			continue
-		}
+		flatten(e, 0)
+	}
+	for _, e := range incs {
 		bo, isB := e.(*ssa.BinOp)
 		if !isB || bo.Op != token.ADD || bo.X != ssa.Value(phi) {
 			okInc = false
@@ -171,6 +208,21 @@ func checkStoredCountRule(p *core.Program, r *core.Report, c *wlCtor, rule strin
 	r.Check(okInc, rule, name, "count is phi(0, count+1)", pos, "")
 }
 
+// sameElement: the same SSA value, or two loads of the same slice element s[i].
+func sameElement(a, b ssa.Value) bool {
+	if a == b {
+		return true
+	}
+	la, ok1 := a.(*ssa.UnOp)
+	lb, ok2 := b.(*ssa.UnOp)
+	if !ok1 || !ok2 {
+		return false
+	}
+	ia, ok1 := la.X.(*ssa.IndexAddr)
+	ib, ok2 := lb.X.(*ssa.IndexAddr)
+	return ok1 && ok2 && ia.X == ib.X && ia.Index == ib.Index
+}
+
 func isTitleOf(t, k ssa.Value) bool {
 	c, ok := t.(*ssa.Call)
 	_ = c
@@ -178,7 +230,7 @@ func isTitleOf(t, k ssa.Value) bool {
 		return false
 	}
 	x, isT := titleCallArg(t)
-	return isT && x == k
+	return isT && sameElement(x, k)
 }
 
 // Term is one addend of a numeric result with the conditions under which it is added.
